@@ -533,6 +533,11 @@ def _end_to_end(m, cfg, tag, dg, lay, kw, C_, S_, RHO, W_, O, Wcm, fu, point, nd
         if (nx, ny) != (cfg["nx"], cfg["ny"]) and cfg.get("thick") and not cfg.get("nz"):
             kw2["resolution"].pop("z", None)
         bad += _end_to_end_one(m, cfg, nx, ny, lay, kw2, C_, S_, RHO, W_, O, Wcm, fu, point, ndim, basis, Pfree)
+        if cfg.get("thick") and cfg.get("op") != "nansum" and cfg["layer"] != "vector":
+            # with few cells most depth columns contain missing samples and every non-nan reduction is masked whatever was
+            # selected: nansum exposes a cell that was wrongly dropped
+            bad += _end_to_end_one(m, dict(cfg, op="nansum"), nx, ny, lay, dict(kw2, operation="nansum"), C_, S_, RHO, W_, O, Wcm, fu,
+                                   point, ndim, basis, Pfree)
     if bad:
         m.failed.append("*")
         m.notes = bad[:4]
